@@ -103,7 +103,7 @@ func gen(r *core.PRNG, tier string) any {
 		p.Group = groupNames[r.Pick(10, 4, 2, 10)]
 		p.N = r.Range(1, 12)
 		p.T = r.Intn(p.N)
-		p.IDs = []string{"seq", "rand", "scratch"}[r.Intn(3)]
+		p.IDs = []string{"seq", "rand", "scratch", "wire"}[r.Intn(4)]
 		p.Secret = []string{"rand", "rand", "zero", "one", "minus1"}[r.Intn(5)]
 		p.Arrive = subsetPlan(r, p.N, p.T+1)
 	} else {
@@ -209,6 +209,55 @@ func execSS(p *Plan, run *core.Run) {
 		for i := 0; i < p.N; i++ {
 			shares = append(shares, ss.ShareWithID(g.RandomNonZeroScalar(ids)))
 		}
+	} else if p.IDs == "wire" {
+		// identifiers come off the wire as byte strings (a joining holder names its own): among
+		// them encodings of order+k, which denote the scalars k — the order itself denotes zero,
+		// and order+1 the same scalar as 1. What the decoder accepts is used as it comes out.
+		m1, _ := g.NewScalar().Neg(g.NewScalar().SetUint64(1)).MarshalBinary()
+		little := p.Group == "ristretto255"
+		toInt := func(b []byte) *big.Int {
+			c := append([]byte{}, b...)
+			if little {
+				for i, j := 0, len(c)-1; i < j; i, j = i+1, j-1 {
+					c[i], c[j] = c[j], c[i]
+				}
+			}
+			return new(big.Int).SetBytes(c)
+		}
+		order := new(big.Int).Add(toInt(m1), big.NewInt(1))
+		enc := func(v *big.Int) []byte {
+			c := v.FillBytes(make([]byte, len(m1)))
+			if little {
+				for i, j := 0, len(c)-1; i < j; i, j = i+1, j-1 {
+					c[i], c[j] = c[j], c[i]
+				}
+			}
+			return c
+		}
+		fallback := uint64(1000)
+		for i := 0; i < p.N; i++ {
+			v := big.NewInt(int64(i/2 + 1)) // 1, order+1 (again 1), 2, order+2, ...
+			if i%2 == 1 {
+				v.Add(v, order)
+			}
+			if i == 0 && p.Seed%3 == 0 {
+				v.Set(order) // zero, spelled as the order
+			}
+			id := g.NewScalar()
+			var sh secretsharing.Share
+			refused := v.BitLen() > 8*len(m1) || id.UnmarshalBinary(enc(v)) != nil
+			if !refused {
+				if pan, _, _ := core.Try(func() { sh = ss.ShareWithID(id) }); pan {
+					refused = true // documented: the identifier zero is refused with a panic
+				}
+			}
+			if refused {
+				fallback++
+				sh = ss.ShareWithID(g.NewScalar().SetUint64(fallback))
+			}
+			shares = append(shares, sh)
+		}
+		run.Fault("transport:identifier-encodings-at-or-above-the-order")
 	} else if p.IDs == "scratch" {
 		// the dealer reuses one scratch scalar for all identifiers
 		id := g.NewScalar()
@@ -226,6 +275,16 @@ func execSS(p *Plan, run *core.Run) {
 	if now, _ := secret.MarshalBinary(); string(now) != string(want) {
 		run.Violate(comp+".New", "modifies-the-secret-operand", "the caller's secret changed")
 		return
+	}
+	// no single share is the secret (t >= 1)
+	if p.T >= 1 {
+		for i, s := range shares {
+			if vb, _ := s.Value.MarshalBinary(); string(vb) == string(want) {
+				idb, _ := s.ID.MarshalBinary()
+				run.Violate(comp+".ShareWithID", "share-is-the-secret", "share %d of (t=%d,n=%d), identifier %x (IsZero=%v): its value is the dealt secret", i+1, p.T, p.N, idb, s.ID.IsZero())
+				return
+			}
+		}
 	}
 	// every dealt share verifies against the commitment
 	for i, s := range shares {
